@@ -35,8 +35,10 @@ warnings.filterwarnings("ignore", category=SyntaxWarning)
 
 from sim import kernel, procs, minimise, registry  # noqa: E402
 
-REPLAY_DIR = os.path.join(VERIF, "replays")
-EVIDENCE_DIR = os.path.join(VERIF, "evidence")
+# the two output directories can be redirected (the sensitivity self-test runs the checks against mutated
+# copies of the source and must not overwrite the evidence of the real tree)
+REPLAY_DIR = os.environ.get("VERIF_REPLAY_DIR", os.path.join(VERIF, "replays"))
+EVIDENCE_DIR = os.environ.get("VERIF_EVIDENCE_DIR", os.path.join(VERIF, "evidence"))
 FINDINGS_FILE = os.path.join(VERIF, "known_findings.json")
 
 
